@@ -58,7 +58,8 @@ func Content(tape *sim.Tape, ext string, allowBad bool) ([]byte, string) {
 		base := good[tape.Draw(len(good))]
 		var sb strings.Builder
 		n := 0
-		for sb.Len() < 33000+tape.Draw(40000) {
+		target := 33000 + tape.Draw(40000)
+		for sb.Len() < target {
 			switch ext {
 			case "js", "mjs":
 				fmt.Fprintf(&sb, "var v%d = %d + 1 ;\n", n, n)
